@@ -1,6 +1,7 @@
 // hand-written prelude of the `eval` group: opaque leaf types (R6) and the record-tree ghost model
+// stands for the foreign error payloads (serde_json::Error, io::Error, ...) of rules::errors::Error
 #[verifier::external_body]
-pub struct Error { _p: u8 }
+pub struct ExtError { _p: u8 }
 
 pub type Result<R> = std::result::Result<R, Error>;
 
